@@ -592,6 +592,13 @@ func (vc *VC) specCall(x CCall, env *SpecEnv) Term {
 	case "store":
 		a := args()
 		return Term{fmt.Sprintf("(store %s %s %s)", a[0].S, a[1].S, a[2].S), a[0].Sort, a[0].T}
+	case "sameType":
+		// same dynamic type of two interface values
+		a := args()
+		if si := vc.ss.info[a[0].Sort]; si == nil || si.Kind != "iface" || a[1].Sort != a[0].Sort {
+			return vc.specFail("sameType needs two values of the same interface sort")
+		}
+		return Term{fmt.Sprintf("(= (tag.%s %s) (tag.%s %s))", a[0].Sort, a[0].S, a[0].Sort, a[1].S), SBool, nil}
 	case "strLess":
 		a := args()
 		vc.ss.declare(&sortInfo{Name: "str$lt", Kind: "const", Decl: "(declare-fun gs.lt (Str Str) Bool)"})
